@@ -1,6 +1,7 @@
 package vc
 
 import (
+	"go/constant"
 	"fmt"
 	"go/types"
 	"strings"
@@ -112,8 +113,22 @@ func anchorMatches(ins ssa.Instruction, anchor string) bool {
 		}
 		return false
 	case "return":
-		_, ok := ins.(*ssa.Return)
-		return ok
+		// return          : any return
+		// return:"text"   : a return whose first result is that string constant
+		r, ok := ins.(*ssa.Return)
+		if !ok {
+			return false
+		}
+		if name == "" {
+			return true
+		}
+		if len(r.Results) == 0 {
+			return false
+		}
+		if c, isC := r.Results[0].(*ssa.Const); isC && c.Value != nil && c.Value.Kind() == constant.String {
+			return constant.StringVal(c.Value) == strings.Trim(name, "\"")
+		}
+		return false
 	}
 	return false
 }
